@@ -6,6 +6,7 @@ import (
 	"fmt"
 	"go/token"
 	"go/types"
+	"strings"
 
 	"golang.org/x/tools/go/ssa"
 )
@@ -14,7 +15,7 @@ func init() {
 	register(&propDef{
 		ID: "C15",
 		Meta: propMeta{
-			Explanation: "Decides the shape of the worker retry protocol on every path: (R15a) the single attempt call in doRetry sits in a loop every iteration of which passes a `counter < bound` test on an induction variable (+const per iteration, bound from the configured retries or the default), and a failed attempt can reach the next attempt only through the true side of httperror.Temporary applied to that attempt's own error; every other failure returns that same error value unwrapped; (R15b) every return of doRetry whose error may be nil is guarded by a successful attempt, including the post-loop return, for which the zero-iteration path must be impossible (bound proved > initial counter on every incoming path); (R15c) after the backoff wait the caller's context is re-checked before the next attempt, and the per-attempt context derives from the request's context; (R15d) the worker handler dispatches (and touches the token) only after hmac.Equal on the per-process cookie returned true, and the refusal path answers 403; (R15e) every field of the RPC request/response structs is written by the producing side and read by the consuming side, Usage maps to KeyUsageError and Retryable to Temporary(); (R15f) the key cache returns a cached key only if no key id is pinned or the ids are bytes.Equal, never stores a key fetched under a pinned id, and is accessed under its mutex; the handler installs the pinned id in the context.",
+			Explanation: "Decides the shape of the worker retry protocol on every path: (R15a) the single attempt call in doRetry sits in a loop every iteration of which passes a `counter < bound` test on an induction variable (+const per iteration, bound from the configured retries or the default), and a failed attempt can reach the next attempt only through the true side of httperror.Temporary applied to that attempt's own error; every other failure returns that same error value unwrapped; (R15b) every return of doRetry whose error may be nil is guarded by a successful attempt, including the post-loop return, for which the zero-iteration path must be impossible (bound proved > initial counter on every incoming path); (R15c) after the backoff wait the caller's context is re-checked before the next attempt, and the per-attempt context derives from the request's context; (R15d) the worker handler dispatches (and touches the token) only after hmac.Equal on the per-process cookie returned true, and the refusal path answers 403; (R15e) every field of the RPC request/response structs is written by the producing side and read by the consuming side, Usage maps to KeyUsageError and Retryable to Temporary(); (R15f) the key cache returns a cached key only if no key id is pinned or the ids are bytes.Equal, never stores a key fetched under a pinned id, and is accessed under its mutex; the handler installs the pinned id in the context. (R15g) the token wrappers between the RPC handler and the real token (key cache, rate limiter) return the inner token's errors unwrapped: the handler classifies errors by exact type, so a wrapped error loses its retryable / key-usage classification.",
 			NotDecided:  "timing of backoff, what HSMs return, HTTP transport behaviour, and the dynamic count of attempts (only that each iteration passes the bound test).",
 			Assumptions: []string{"httperror.Temporary classifies by the dynamic type of the error value, so wrapping loses the classification"},
 		},
@@ -149,6 +150,7 @@ func runC15(c *Ctx) {
 	c15Handler(c, rd, re, rf)
 	c15Cache(c, rf)
 	c15RPC(c, re)
+	c15Transparent(c)
 }
 
 func c15Retry(c *Ctx, dr *ssa.Function, ra, rb, rc string) {
@@ -1117,5 +1119,69 @@ func c15RPC(c *Ctx, re string) {
 			ok := written[f] && read[f]
 			c.Check(ok, re, key, p.Pos(st.Field(i).Pos()), "written by "+pc[0]+", read by "+pc[1], fmt.Sprintf("RPC field is not carried across the boundary (written by %s: %v, read by %s: %v)", pc[0], written[f], pc[1], read[f]))
 		}
+	}
+}
+
+// ------------------------------------------------------------------------------ R15g
+
+// c15Transparent: the token wrappers between the worker's RPC handler and the real token
+// (key cache, rate limiter) hand the inner token's errors on as they are. The handler classifies
+// errors by exact type (type switch / type assertion), so an error that was wrapped on the way
+// loses its classification: a permanent error is answered as retryable and a key-usage error
+// is no longer reported as one.
+func c15Transparent(c *Ctx) {
+	p := c.P
+	c.Rule("R15g", "token wrappers return the inner token's errors unwrapped (the RPC handler classifies by exact type)", 6)
+	n := 0
+	for _, fn := range p.pkgFuncs("token/tokencache") {
+		ei := errResultIndex(fn.Signature)
+		if ei < 0 || fn.Signature.Recv() == nil {
+			continue
+		}
+		// inner calls: invokes on token.Token / token.Key
+		var inner []ssa.Value
+		for _, b := range fn.Blocks {
+			for _, in := range b.Instrs {
+				call, ok := in.(*ssa.Call)
+				if !ok || !call.Common().IsInvoke() {
+					continue
+				}
+				rt := call.Common().Value.Type().String()
+				if !strings.HasSuffix(rt, "token.Token") && !strings.HasSuffix(rt, "token.Key") {
+					continue
+				}
+				if ev := errValueOf(call); ev != nil {
+					inner = append(inner, ev)
+				}
+			}
+		}
+		if len(inner) == 0 {
+			continue
+		}
+		n++
+		c.Analysed(p.FName(fn))
+		key := p.FName(fn) + " passes inner errors on unwrapped"
+		bad := ""
+		for _, r := range returnsOf(fn) {
+			for _, lf := range phiLeaves(retVal(r, ei), nil, map[*ssa.Phi]bool{}) {
+				call, _ := resultOf(lf.V)
+				if call == nil {
+					continue
+				}
+				name := p.calleeName(call.Common())
+				if name != "fmt.Errorf" && name != "errors.Join" && !strings.HasSuffix(name, "errors.Wrap") && !strings.HasSuffix(name, "errors.Wrapf") && !strings.HasSuffix(name, "errors.WithMessage") {
+					continue
+				}
+				for _, iv := range inner {
+					if dependsOn(lf.V, func(x ssa.Value) bool { return x == iv }) {
+						bad = p.Pos(call.Pos())
+					}
+				}
+			}
+		}
+		c.Check(bad == "", "R15g", key, p.Pos(fn.Pos()), "", "an error of the inner token is wrapped ("+bad+") before it is returned: the worker's RPC handler classifies errors by exact type, so a wrapped token.KeyUsageError / permanent PKCS#11 error is answered as a retryable failure and the caller retries an operation that can never succeed")
+	}
+	if n < 5 {
+		c.Undecided("R15g", "token wrapper methods", "-", fmt.Sprintf("only %d wrapper methods forwarding to an inner token found (6 confirmed by reading)", n))
 	}
 }
